@@ -1,5 +1,6 @@
 import NeumannModel.Common.Proto
 import NeumannModel.Vec.Model
+import NeumannModel.Vec.NsModel
 import NeumannModel.Vec.HnswModel
 /- Line-protocol driver for the vector-search model (C06).  Stateful: one engine per process,
    `reset` starts a fresh one.  Vectors are comma separated integers, `-` = empty. -/
@@ -21,6 +22,8 @@ def HState.pd (h : HState) (a b : Nat) : Nat :=
 structure DState where
   st : State
   h : HState := HState.init
+  /-- the storage-key layer of the `ns ..` commands (its own engine) -/
+  fs : Flat := Flat.init
 
 def showErr : Err → String
   | .emptyVector => "empty_vector" | .invalidTopK => "invalid_top_k"
@@ -102,8 +105,9 @@ def parseKeys (s : String) : List String := if s = "-" then [] else s.splitOn ",
 def parseBatch (s : String) : Option (List (String × List Int)) :=
   if s = "-" then some []
   else (s.splitOn ";").mapM fun kv =>
-    match kv.splitOn ":" with
-    | [k, v] => (parseInts v).map fun v => (k, v)
+    -- the key may itself contain `:` (`emb:k3`): the vector is what follows the LAST one
+    match (kv.splitOn ":").reverse with
+    | v :: k :: ks => (parseInts v).map fun v => (":".intercalate (k :: ks).reverse, v)
     | _ => none
 
 def parseLimit (s : String) : Option (Option Nat) :=
@@ -140,8 +144,38 @@ def vecStep (d : DState) (line : String) : DState × String :=
   let doOp (op : Op) : DState × String :=
     let (st', r) := step d.st op
     ({ d with st := st' }, showResp r)
+  let doNs (op : FOp) : DState × String := ({ d with fs := fstep d.fs op }, "ok")
+  let showOpt (o : Option (List Int)) : String := match o with
+    | some v => "ok " ++ showInts v
+    | none => "err not_found"
   match words line with
   | ["reset"] => ({ d with st := State.init }, "ok")
+  -- the storage-key layer (`NsModel.lean`): arbitrary key / collection strings
+  | ["ns", "reset"] => ({ d with fs := Flat.init }, "ok")
+  | ["ns", "store", k, v] => match parseInts v with
+      | some v => doNs (.store k v) | none => bad
+  | ["ns", "del", k] => if alHas d.fs.store (embKey k) then doNs (.delete k) else (d, "err not_found")
+  | ["ns", "cstore", c, k, v] => match parseInts v with
+      | some v => doNs (.cstore c k v) | none => bad
+  | ["ns", "cdel", c, k] =>
+      if alHas d.fs.store (collKey c k) then doNs (.cdelete c k) else (d, "err not_found")
+  | ["ns", "build"] => doNs .build
+  | ["ns", "cbuild", c] => doNs (.cbuild c)
+  | ["ns", "inval", slot] => doNs (.invalidate slot)
+  | ["ns", "keys"] => (d, "ok " ++ ",".intercalate d.fs.listKeys)
+  | ["ns", "ckeys", c] => (d, "ok " ++ ",".intercalate (d.fs.listCollKeys c))
+  | ["ns", "get", k] => (d, showOpt (d.fs.getDefault k))
+  | ["ns", "cget", c, k] => (d, showOpt (d.fs.getColl c k))
+  | ["ns", "search", q, k] => match parseInts q, k.toNat? with
+      | some q, some k => (d, showOut q (d.fs.searchDefault q k)) | _, _ => bad
+  | ["ns", "csearch", c, q, k] => match parseInts q, k.toNat? with
+      | some q, some k => (d, showOut q (d.fs.searchColl c q k)) | _, _ => bad
+  -- build_hnsw_index + search_with_hnsw / search_with_hnsw_and_metric on the default collection
+  | ["hwith", q, k] => match parseInts q, k.toNat? with
+      | some q, some k => (match buildIndex d.st with
+          | some snap => (d, showOut q (searchWithHnsw snap q k))
+          | none => (d, "err build_dim_mismatch"))
+      | _, _ => bad
   -- HNSWIndex::with_config(HNSWConfig { m, m0, ef_construction, .. })
   | ["hnew", m, m0, efc] => match m.toNat?, m0.toNat?, efc.toNat? with
       | some m, some m0, some efc => ({ d with h := ⟨⟨m, m0, efc⟩, Hnsw.Graph.empty, []⟩ }, "ok")
